@@ -1,5 +1,6 @@
 import SaModel.Build.Finish
 import SaModel.Spec.Interp
+import SaModel.Lemmas.C01LeafBridge
 import SaModel.Props.C03
 import SaModel.Props.C01Obs
 import SaModel.Props.C02
